@@ -66,7 +66,9 @@ fn segs(r: &mut Rng) -> f64 { *r.pick(&[4.0, 5.0, 8.0, 16.0, 33.0]) }
 fn lead(r: &mut Rng) -> f64 { *r.pick(&[0.0, 0.0, 1.0, 45.0, 90.0, 360.0, 300.0, 330.0]) }
 fn fl01(r: &mut Rng) -> f64 { if r.coin() { 1.0 } else { 0.0 } }
 
-pub fn gen_args(r: &mut Rng, op: i64) -> Vec<f64> {
+pub fn gen_args(r: &mut Rng, op: i64) -> Vec<f64> { gen_args_fine(r, op, false) }
+/// fine = a rod, tap or bolt whose angular step is one degree
+pub fn gen_args_fine(r: &mut Rng, op: i64, fine: bool) -> Vec<f64> {
     // thread lengths are a few pitches so that the meshes stay small enough to be compared inside Coq
     let m = msize(r);
     let pitch = metric_thread::verif_m_table_lookup(m as i32).0;
@@ -75,6 +77,12 @@ pub fn gen_args(r: &mut Rng, op: i64) -> Vec<f64> {
     let short = r.below(4) == 0;
     let len = pitch * if short { r.uniform(2.05, 2.9) } else { r.uniform(2.6, 7.0) };
     let lead = |r: &mut Rng| if short { *r.pick(&[360.0, 330.0, 300.0, 360.0, 90.0]) } else { lead(r) };
+    // the second round of every run builds each rod, tap and bolt with a step of one degree (360 segments on barely two
+    // pitches): lead-in / lead-out angles of a degree or so, and constants standing for "no taper", make a difference only there
+    let fine = fine && (500..=502).contains(&op);
+    let len = if fine { pitch * r.uniform(2.05, 2.4) } else { len };
+    let segs = |r: &mut Rng| if fine { 360.0 } else { segs(r) };
+    let lead = |r: &mut Rng| if fine { *r.pick(&[0.0, 1.0, 0.5, 2.0, 90.0]) } else { lead(r) };
     match op {
         500 => vec![m, len, segs(r), lead(r), lead(r), fl01(r), fl01(r)],
         501 => vec![m, len, segs(r), fl01(r), fl01(r)],
@@ -100,10 +108,12 @@ pub fn emit(seed: u64, n: usize, lo: i64, hi: i64) {
     let (colors, names) = textgen::all_colors(); let _ = colors;
     let ops: Vec<i64> = (500..=513).filter(|o| *o >= lo && *o <= hi).collect();
     let mut count = 0;
+    let mut round = 0;
     while count < n {
+        round += 1;
         for op in ops.iter() {
             if count >= n { break; }
-            let args = gen_args(&mut r, *op);
+            let args = gen_args_fine(&mut r, *op, round == 2 && hi == 503);    // the thread property's own run (C16)
             // builders with a centre flag are always run with both settings on otherwise identical arguments
             let centre_slot = match op { 500 => Some(6), 501 => Some(4), 502 => Some(7), 503 => Some(5), 504 => Some(5), 507 => Some(3), 509 => Some(4), 513 => Some(8), _ => None };
             let variants: Vec<Vec<f64>> = match centre_slot { Some(k) => { let mut a0 = args.clone(); a0[k] = 0.0; let mut a1 = args.clone(); a1[k] = 1.0; vec![a0, a1] } None => vec![args] };
